@@ -1,3 +1,5 @@
 module verifstat
 
 go 1.23
+
+require pgregory.net/rapid v1.3.0
